@@ -61,3 +61,23 @@ Proof.
   intros b H C. destruct (parse_full_nosemi b H C) as [F|P]; [right|left; exact P].
   eapply l_parse_from_fuel_gap. exact F.
 Qed.
+
+(** ---- peg_fuel (Base/Peg.v, 128 + 96 n) lies above the bound of the regenerated locust grammar ---- *)
+Lemma l_peg_fuel_above_bound : forall s, peg_bound l_grammar (length s) <= peg_fuel s.
+Proof.
+  intro s. unfold peg_bound, peg_fuel.
+  assert (HA : g_A l_grammar <= 96) by (apply Nat.leb_le; vm_compute; reflexivity).
+  assert (HB : g_K l_grammar * g_W l_grammar + g_W l_grammar <= 128) by (apply Nat.leb_le; vm_compute; reflexivity).
+  rewrite <- Nat.add_assoc. revert HA HB.
+  generalize (g_A l_grammar) (g_K l_grammar * g_W l_grammar + g_W l_grammar). intros A B HA HB.
+  pose proof (Nat.mul_le_mono_r _ _ (length s) HA). lia.
+Qed.
+
+Theorem l_parse_never_fuel : forall start s, parse_from l_grammar start s <> PFuel.
+Proof. intros start s. exact (l_peg_fuel_adequate start AtNon 0 s (peg_fuel s) (l_peg_fuel_above_bound s)). Qed.
+
+Theorem parse_total : forall b, wfp_block b = true -> csf_block b = true -> parse_ok b.
+Proof.
+  intros b H C. apply (proj1 (parse_ok_at_peg_fuel b)).
+  apply (parse_total_at_bound b H C (peg_fuel (render_block b)) (l_peg_fuel_above_bound (render_block b))).
+Qed.
